@@ -9,6 +9,8 @@ Stand-alone Treg:    `treg stability (sev:cond)*`, `evaluate level action clean 
 Stand-alone thymus:  `tcfg min tol varThr`, `sample <fp>`, `ttrain sdLen sdTime sdConf` (installs a default T cell).
 Pipeline:            `sys minTrain tol varThr stability cap (sev:cond)*`, `reg a`, `show a <fp>|none`, `train a`,
   `pinspect a`, `pflag a b`, `preset a`, `presetfa a`, `unrec a`.
+Pipeline with the real display: `dreg a windowSize minObs`, `obs a text|brk|none|empty struct words len time conf err
+  sdLen sdTime sdConf` (the three stdevs of the window after this observation), `canary a b`.
 -/
 open Operon Operon.Proto Operon.Immune
 
@@ -18,6 +20,8 @@ structure DSt where
   tcfg : ThymusCfg := ⟨10, 2, 1 / 2⟩
   samples : List Peptide := []
   sys : Sys := Sys.init 10 2 (1 / 2) ⟨[], 100⟩ 1000
+  /-- agents whose display is a real window (`dreg`), with the standard deviations of the current window -/
+  displays : List (Nat × Display × Sds) := []
 
 def natList (s : String) : List Nat :=
   if s = "-" then [] else (s.splitOn ",").map (natD ·)
@@ -132,15 +136,41 @@ def step (st : DSt) (toks : List String) : DSt × String :=
     | .raiseStats => (st, "raise:StatisticsError ## tr:raise")
     | .positive pr => ({ st with tcell := some (TCell.fresh pr 3 5) }, "positive ## tr:positive")
   | "sys" :: mn :: tol :: vt :: stab :: cap :: rules =>
-    ({ st with sys := Sys.init (intD mn) (ratOf tol) (ratOf vt) ⟨rules.map ruleOf, intD stab⟩ (intD cap) }, "ok")
-  | ["reg", a] => ({ st with sys := st.sys.register (natD a) }, "ok")
+    ({ st with sys := Sys.init (intD mn) (ratOf tol) (ratOf vt) ⟨rules.map ruleOf, intD stab⟩ (intD cap),
+               displays := [] }, "ok")
+  | ["reg", a] =>
+    ({ st with sys := st.sys.register (natD a), displays := st.displays.filter (·.1 != natD a) }, "ok")
+  | ["dreg", a, ws, mo] =>
+    ({ st with sys := st.sys.register (natD a),
+               displays := (natD a, ⟨intD ws, intD mo, [], []⟩, ⟨0, 0, 0⟩) :: st.displays.filter (·.1 != natD a) }, "ok")
+  | ["obs", a, out, sk, ws, ln, tm, cf, er, sl, stt, sc] =>
+    match st.displays.find? (·.1 == natD a) with
+    | none => (st, "no-display")
+    | some (_, d, _) =>
+      let ob : Ob := ⟨out == "text" || out == "brk", natD ln, natList ws, natD sk, ratOf tm, ratOf cf,
+        if er == "-" || er == "empty" then none else some (natD er)⟩
+      let d' := d.record ob
+      let sd : Sds := ⟨ratOf sl, ratOf stt, ratOf sc⟩
+      ({ st with sys := st.sys.showPeptide (natD a) (d'.generate sd),
+                 displays := (natD a, d', sd) :: st.displays.filter (·.1 != natD a) },
+        s!"ok n={d'.obs.length}" ++ (if (d'.generate sd).isSome then " ## d:peptide" else " ## d:short") ++
+          (if d'.obs.length ≤ d.obs.length then " d:evicted" else ""))
+  | ["canary", a, b] =>
+    match st.displays.find? (·.1 == natD a) with
+    | none => (st, "no-display")
+    | some (_, d, sd) =>
+      let d' := d.recordCanary (boolOf b)
+      ({ st with sys := st.sys.showPeptide (natD a) (d'.generate sd),
+                 displays := (natD a, d', sd) :: st.displays.filter (·.1 != natD a) }, "ok ## d:canary")
   | ["show", a, "none"] =>
-    if (st.sys.agents (natD a)).registered then ({ st with sys := st.sys.showPeptide (natD a) none }, "ok")
+    if (st.displays.find? (·.1 == natD a)).isSome then (st, "bad-op")
+    else if (st.sys.agents (natD a)).registered then ({ st with sys := st.sys.showPeptide (natD a) none }, "ok")
     else (st, "unregistered")
   | "show" :: a :: fp =>
     match pepOf fp with
     | some p =>
-      if (st.sys.agents (natD a)).registered then ({ st with sys := st.sys.showPeptide (natD a) (some p) }, "ok")
+      if (st.displays.find? (·.1 == natD a)).isSome then (st, "bad-op")
+      else if (st.sys.agents (natD a)).registered then ({ st with sys := st.sys.showPeptide (natD a) (some p) }, "ok")
       else (st, "unregistered")
     | none => (st, "bad-op")
   | ["train", a] =>
